@@ -69,7 +69,7 @@ MPrefixRich == {<<>>} \cup
   {kz \o b \o st : kz \in {<<>>, <<"Ra", "As", "H">>},
                    b \in {<<"C">>, <<"Ra">>, <<"GB">>} \cup (IF Rich THEN {<<"IV">>} ELSE {}),
                    st \in {<<>>, <<"H", "C">>, <<"H", "Ra">>} \cup (IF Rich THEN {<<"H", "Ra", "H", "C">>, <<"H", "C", "H", "Ra">>} ELSE {})}
-MPrefixPlain == {<<>>, <<"C">>, <<"Ra", "As", "H", "C">>} \cup (IF Rich THEN {<<"Ra">>} ELSE {})
+MPrefixPlain == {<<>>, <<"C">>, <<"Ra", "As", "H", "C">>}
 MMeds == {<<>>, <<"MY">>, <<"MR">>, <<"MY", "MR">>, <<"MR", "MW">>} \cup
          (IF Rich THEN {<<"MW">>, <<"MY", "As", "MR", "MW", "MH">>, <<"MR", "MH", "ML">>} ELSE {})
 MVPres == {<<>>, <<"VPre">>, <<"VPre", "VPre">>}
